@@ -100,6 +100,26 @@ pub fn check_nano(c: &NanoCase, st: &mut Stats, exact: bool) -> Result<(), Strin
     let b2 = if in_i64 { DateTime::from_timespec(q as i64, r, zone) } else { Err(TzError::OutOfRange) };
     cmp_dt(n, "from_total_nanoseconds(zone)", &a2, &b2)?;
     cmp_dt(n, "zone vs local", &a2, &a)?;
+    // a zone that changes its local time type at the start of the second containing n and again at the start of the next one: the
+    // lookup must be made with the floored second (for a negative count that is not a multiple of 1e9, truncation lands in the next type)
+    if in_i64 && q < i64::MAX as i128 {
+        let q64 = q as i64;
+        let mk = |o: i32| LocalTimeType::with_ut_offset(if o == i32::MIN { 7 } else { o });
+        if let (Ok(y), Ok(z)) = (mk(c.off.wrapping_add(1)), mk(c.off.wrapping_sub(1))) {
+            let types3 = [ltt, y, z];
+            let trans3 = [tz::timezone::Transition::new(q64, 1), tz::timezone::Transition::new(q64 + 1, 2)];
+            let zone3 = TimeZoneRef::new(&trans3, &types3, &[], &None).map_err(|e| format!("zone3: {e:?}"))?;
+            let a3 = DateTime::from_total_nanoseconds(n, zone3);
+            let b3 = DateTime::from_timespec(q64, r, zone3);
+            cmp_dt(n, "from_total_nanoseconds(zone with transitions at floor and floor+1)", &a3, &b3)?;
+            if let Ok(d) = &a3 {
+                if d.local_time_type().ut_offset() != y.ut_offset() {
+                    return Err(format!("n={n}: in a zone switching types at seconds {q64} and {}, the count lies in second {q64} but got the type with offset {} (expected {})", q64 + 1, d.local_time_type().ut_offset(), y.ut_offset()));
+                }
+                st.class("zone_with_transitions_ok");
+            }
+        }
+    }
     Ok(())
 }
 
@@ -201,7 +221,7 @@ fn arb_i128() -> SBoxedStrategy<i128> {
     let lo = cal::min_unix() as i128 * E9;
     let hi = cal::max_unix() as i128 * E9 + 999_999_999;
     prop_oneof![
-        3 => (lo..=hi),
+        3 => lo..=hi,
         2 => any::<i128>(),
         3 => (gens::arb_unix_time(), -1i128..=1, proptest::sample::select(vec![0i128, 1, 999_999_999, 500_000_000])).prop_map(|(t, e, r)| t as i128 * E9 + e + r),
         2 => (-100_000i128..100_000, -1i128..=1).prop_map(|(k, e)| k * E9 + e),
@@ -263,9 +283,11 @@ pub fn run(ctx: &Ctx) -> Outcome {
                 }
             }
         }
-        for n in [i128::MIN, i128::MIN + 1, i128::MAX, i128::MAX - 1] {
-            let c = NanoCase { n: n.to_string(), off: 0 };
-            check_enum("nano", &c, st, |c, st| check_nano(c, st, true))?;
+        for n in [i128::MIN, i128::MIN + 1, i128::MIN + 999_999_999, i128::MIN + 1_000_000_000, i128::MAX, i128::MAX - 1, i128::MAX - 999_999_999, i128::MAX - 1_000_000_000] {
+            for off in [0, 1, -1, 3600, -3600, 86_399, i32::MAX, i32::MIN + 1] {
+                let c = NanoCase { n: n.to_string(), off };
+                check_enum("nano", &c, st, |c, st| check_nano(c, st, true))?;
+            }
         }
         Ok(())
     });
